@@ -25,11 +25,15 @@
    (4) PAGE SEEKS (ov_pcm_seek_page) under the same hypotheses: the position
    reported is at or below the target and is where the first following packet
    ends; the next fetch delivers nothing and leaves the handle in sync there.
-   NOT proved: raw seeks, the continued-packet fallback, seeks that finish inside the last page (end-of-
+   (5) BYTE SEEKS (ov_raw_seek) into the link being decoded, onto a page that is
+   not the link's last and carries a granule position, followed by an intact
+   run: the position reported is where the first packet of that run ends, and
+   the handle is landed as after a page seek.  NOT proved: byte seeks that
+   change link or land on a last page, the continued-packet fallback, seeks that finish inside the last page (end-of-
    stream trim), half-rate: tied per run by the bit-exact oracle.  See DESIGN.md
    section 13. *)
 From VV Require Import Blocking VFile VFile_lemmas VFileDemo Sync_lemmas Seek_lemmas.
-From Coq Require Import ZArith List.
+From Coq Require Import ZArith List Lia.
 Import ListNotations.
 Local Open Scope Z_scope.
 
@@ -113,6 +117,69 @@ Theorem C07_page_seek_truthful_on_intact_run :
       IntactS (cur_link s1) false e w r.
 Proof. exact pcm_seek_page_truthful. Qed.
 Print Assumptions C07_page_seek_truthful_on_intact_run.
+
+(* byte-position seek (ov_raw_seek) into the link being decoded, onto a page of that link that is not its last
+   one and carries a granule position, the packets from there on forming an intact run whose first packet ends at
+   e0: the seek reports exactly base + e0 and leaves the handle landed (restarted decoder, the queue holding that
+   run); by the next theorem the first fetch then leaves it in sync at that position *)
+Theorem C07_raw_seek_truthful_on_intact_run :
+  forall (tail : list page) s pos pg (r1 : list page) e0,
+    let l := cur_link s in
+    let pk := if pg_cont pg then tl (pg_pkts pg) else pg_pkts pg in
+    v_hs s = 0 -> v_rs s >= STREAMSET -> v_rs s <= INITSET ->
+    0 <= pos <= file_end s -> li_off l <= pos < li_end l ->
+    pages_from (v_pages s) pos = pg :: r1 ++ tail ->
+    plain (v_serial s) pg -> pg_eos pg = false -> Forall (plain (v_serial s)) r1 ->
+    0 < li_bs0 l -> 0 < li_bs1 l -> li_bs0 l <= li_bs1 l -> li_bs0 l mod 4 = 0 -> li_bs1 l mod 4 = 0 -> 0 <= li_init l ->
+    0 <= e0 -> IntactS l true e0 false (pk ++ flat_map pg_pkts r1) -> scan_acc l 0 0 pk <> None ->
+    let s' := snd (raw_seek s pos) in
+    fst (raw_seek s pos) = 0 /\ v_pcm s' = base_of s (v_link s) + e0 /\ Landed tail s' (v_pcm s').
+Proof. exact raw_seek_truthful. Qed.
+Print Assumptions C07_raw_seek_truthful_on_intact_run.
+
+Theorem C07_landed_then_fetch_in_sync :
+  forall (tail : list page) s1 pos, Landed tail s1 pos ->
+    let s2 := make_ready s1 in
+    let e := v_pcm s1 - base_of s1 (v_link s1) in
+    exists p r w s0,
+      stream tail s2 = p :: r /\ pk_W p = Some w /\
+      fetch (fetch_fuel s2) s2 = (1, feed s0 p w) /\
+      SyncInv (feed s0 p w) e /\ dec_pcmout (v_dec (feed s0 p w)) = 0 /\ v_pcm (feed s0 p w) = v_pcm s1 /\
+      IntactS (cur_link s1) false e w r.
+Proof. exact landed_fetch. Qed.
+Print Assumptions C07_landed_then_fetch_in_sync.
+
+(* non-vacuity: the demo handle after a read, byte seek onto its third audio page (offset 238): all hypotheses
+   hold with e0 = 96, so the seek reports 96 and lands *)
+Example C07_raw_seek_nonvacuous :
+  let s := snd (read_float (read_fuel demo2) demo2 10) in
+  fst (raw_seek s 238) = 0 /\ v_pcm (snd (raw_seek s 238)) = 96 /\
+  Landed (skipn 7 demo2_pages) (snd (raw_seek s 238)) (v_pcm (snd (raw_seek s 238))).
+Proof.
+  cbv zeta.
+  pose proof (raw_seek_truthful (skipn 7 demo2_pages) (snd (read_float (read_fuel demo2) demo2 10)) 238
+                (demo2_nth 4) [demo2_nth 5; demo2_nth 6] 96) as H. cbv zeta in H.
+  destruct H as (A & B & C).
+  - reflexivity.
+  - vm_compute. discriminate.
+  - vm_compute. discriminate.
+  - vm_compute. split; discriminate.
+  - vm_compute. split; [discriminate|reflexivity].
+  - vm_compute. reflexivity.
+  - split; vm_compute; reflexivity.
+  - reflexivity.
+  - repeat constructor.
+  - vm_compute. reflexivity.
+  - vm_compute. reflexivity.
+  - vm_compute. discriminate.
+  - vm_compute. reflexivity.
+  - vm_compute. reflexivity.
+  - vm_compute. discriminate.
+  - lia.
+  - apply intactSb_ok. vm_compute. reflexivity.
+  - vm_compute. discriminate.
+  - split; [exact A|]. split; [rewrite B; vm_compute; reflexivity|exact C].
+Qed.
 
 (* what "truthful" means for the samples delivered next: with samples pending, draining them
    delivers n samples, the position advances by n and the handle is in sync there (so theorem
